@@ -320,7 +320,27 @@ macro_rules! weier_curve {
 }
 
 #[allow(non_snake_case)]
-fn weier_extra_p256(_a: &[&str], _rg: &mut Vec<crrl::p256::Point>) -> R { Err("none".into()) }
+fn weier_extra_p256(a: &[&str], _rg: &mut Vec<crrl::p256::Point>) -> R {
+    // xseq <k0> <k1> <n>: x-only sequence P_i = P0 + i*(P1 - P0), P0 = k0*G, P1 = k1*G (public helpers of the truncated
+    // signature verification)
+    use crrl::p256::{Point, Scalar};
+    use crrl::field::GFp256;
+    if arg(a, 0)? != "xseq" { return Err("unknown wextra".into()); }
+    let k0 = Scalar::decode_reduce(&bytes(arg(a, 1)?)?);
+    let k1 = Scalar::decode_reduce(&bytes(arg(a, 2)?)?);
+    let n = usizea(arg(a, 3)?)?;
+    let p0 = Point::mulgen(&k0);
+    let p1 = Point::mulgen(&k1);
+    let (x0, x1, xq) = Point::to_x_affine_diff(p0, p1);
+    let mut xx = vec![GFp256::ZERO; n];
+    let (xn, xn1) = Point::x_sequence_vartime(x0, x1, xq, &mut xx[..]);
+    let mut o = String::new();
+    for v in [x0, x1, xq, xn, xn1].iter() { o.push_str(&ohex(&v.encode())); o.push(' '); }
+    let mut all = Vec::with_capacity(32 * n);
+    for v in xx.iter() { all.extend_from_slice(&v.encode()); }
+    o.push_str(&ohex(&all));
+    Ok(o)
+}
 #[allow(non_snake_case)]
 fn weier_extra_secp256k1(a: &[&str], _rg: &mut Vec<crrl::secp256k1::Point>) -> R {
     // split_theta <scalar>
